@@ -218,6 +218,8 @@ theorem Mgr.init_finv (st : Store) (b : BindSet) : FInv (Mgr.init st b).2.1.trie
   | none => exact finv_nil
   | core => exact bindAll_finv false _ st Mgr.empty finv_nil
   | rdflib => exact bindAll_finv false _ st Mgr.empty finv_nil
+  | cc => exact finv_nil
+  | unknown => exact finv_nil
 
 theorem getQNames_finv : ∀ (d : List (Str × Bool)) (st : Store) (m : Mgr),
     FInv m.trie → FInv (getQNames d st m).2.trie
@@ -249,7 +251,12 @@ theorem TInv.put {s : St} (h : TInv s) (i : Bool) {r : Store × Mgr} (hr : FInv 
 
 theorem TInv.step {s : St} (h : TInv s) (op : Op) : TInv (s.step op).1 := by
   cases op with
-  | minit i b => exact h.put i (Mgr.init_finv _ b)
+  | minit i b =>
+    simp only [St.step]
+    split
+    · exact h
+    · exact h.put i (Mgr.init_finv _ b)
+  | sertrig fb cs => exact ⟨reset_finv _ _, reset_finv _ _⟩
   | bind i p n ov rp => exact h.put i (Mgr.bind_finv (h.mgr i) _ p n ov rp)
   | sbind p n ov =>
     simp only [St.step]
